@@ -144,7 +144,7 @@ pub fn statement_corpus() -> Vec<&'static str> {
         "SELECT array_unique ( a ) , array_cat ( a , a ) , array_append ( a , 1 ) , array_prepend ( 1 , a ) FROM t",
         "SELECT EXTRACT ( year FROM ts ) , EXTRACT ( EPOCH FROM ts ) FROM t",
         "SELECT date_trunc ( 'hour' , ts ) , now ( ) FROM t",
-        "SELECT make_timestamp ( 2021 , 1 , 2 , 3 , 4 , 5 , 6 , 0 ) FROM t",
+        "SELECT make_timestamp ( 2021 , 1 , 2 , 3 , 4 , 5 , 6 ) FROM t",
         "SELECT CASE WHEN v > 1 THEN 'big' ELSE 'small' END FROM t",
         "SELECT CASE WHEN v > 2 THEN 'a' WHEN v > 1 THEN 'b' ELSE 'c' END AS c FROM t",
         "SELECT k FROM t :: 'some file.log'",
